@@ -4,6 +4,8 @@ import (
 	"fmt"
 	"go/token"
 	"go/types"
+	"sort"
+	"strings"
 
 	"golang.org/x/tools/go/ssa"
 )
@@ -296,4 +298,157 @@ func blockDomAll(b *ssa.BasicBlock, bs []*ssa.BasicBlock) bool {
 		}
 	}
 	return true
+}
+
+// formatRecursionRule: formatting never recurses without end. The call graph
+// of the module, extended with the edges that fmt (and any logger that
+// formats its arguments) adds - a value boxed into an interface in function F
+// whose type has a String / Error / GoString / Format method in the module
+// may have that method called while F's formatting runs - has no cycle
+// through such a method. Two String methods that print each other's objects
+// with %s recurse until the stack overflows - a fatal error no recover()
+// stops - as soon as the objects refer to each other (a nick on a channel).
+func (c *Ctx) formatRecursionRule(rule string) {
+	r := c.R
+	fmtMethods := []string{"String", "Error", "GoString", "Format"}
+	methodsOf := func(t types.Type) []*ssa.Function {
+		var out []*ssa.Function
+		for _, tt := range []types.Type{t, types.NewPointer(t)} {
+			if _, isP := t.Underlying().(*types.Pointer); isP && tt != t {
+				continue
+			}
+			ms := c.SSA.MethodSets.MethodSet(tt)
+			for _, name := range fmtMethods {
+				for i := 0; i < ms.Len(); i++ {
+					if ms.At(i).Obj().Name() == name {
+						if f := c.SSA.MethodValue(ms.At(i)); f != nil && c.InModuleFn(c.unthunk(f)) {
+							out = append(out, c.unthunk(f))
+						}
+					}
+				}
+			}
+		}
+		return out
+	}
+	adj := map[*ssa.Function]map[*ssa.Function]string{}
+	add := func(from, to *ssa.Function, how string) {
+		if adj[from] == nil {
+			adj[from] = map[*ssa.Function]string{}
+		}
+		if _, ok := adj[from][to]; !ok {
+			adj[from][to] = how
+		}
+	}
+	isFmt := map[*ssa.Function]bool{}
+	for _, fn := range c.ModFuncs {
+		root := fn
+		for root.Parent() != nil {
+			root = root.Parent()
+		}
+		if fn.Signature.Recv() != nil {
+			for _, name := range fmtMethods {
+				if fn.Name() == name {
+					isFmt[fn] = true
+				}
+			}
+		}
+		funcInstrs(fn, func(in ssa.Instruction) {
+			if cs, ok := in.(ssa.CallInstruction); ok {
+				for _, e := range c.Callees(cs) {
+					if e.Callee != nil && c.InModuleFn(e.Callee) {
+						add(fn, e.Callee, "calls")
+					}
+				}
+			}
+			if mc, ok := in.(*ssa.MakeClosure); ok {
+				if cf, ok := mc.Fn.(*ssa.Function); ok {
+					add(fn, cf, "runs closure")
+				}
+			}
+			if mi, ok := in.(*ssa.MakeInterface); ok {
+				// a value handed to package reflect only is inspected, not formatted
+				onlyReflect := len(*mi.Referrers()) > 0
+				for _, ref := range *mi.Referrers() {
+					if _, isD := ref.(*ssa.DebugRef); isD {
+						continue
+					}
+					call, isC := ref.(*ssa.Call)
+					if !isC || call.Call.StaticCallee() == nil || call.Call.StaticCallee().Pkg == nil || call.Call.StaticCallee().Pkg.Pkg.Path() != "reflect" {
+						onlyReflect = false
+					}
+				}
+				if onlyReflect {
+					return
+				}
+				for _, m := range methodsOf(mi.X.Type()) {
+					add(fn, m, "formats a "+shortType(mi.X.Type())+" at "+c.InstrPos(mi))
+				}
+			}
+		})
+	}
+	n := 0
+	var names []*ssa.Function
+	for f := range isFmt {
+		names = append(names, f)
+	}
+	sort.Slice(names, func(i, j int) bool { return c.FuncKey(names[i]) < c.FuncKey(names[j]) })
+	for _, m := range names {
+		n++
+		// shortest path from m back to m
+		prev := map[*ssa.Function]*ssa.Function{}
+		queue := []*ssa.Function{m}
+		seen := map[*ssa.Function]bool{}
+		found := false
+		for len(queue) > 0 && !found {
+			x := queue[0]
+			queue = queue[1:]
+			var succ []*ssa.Function
+			for y := range adj[x] {
+				succ = append(succ, y)
+			}
+			sort.Slice(succ, func(i, j int) bool { return c.FuncKey(succ[i]) < c.FuncKey(succ[j]) })
+			for _, y := range succ {
+				if y == m {
+					prev[m] = x
+					found = true
+					break
+				}
+				if !seen[y] {
+					seen[y] = true
+					prev[y] = x
+					queue = append(queue, y)
+				}
+			}
+		}
+		why := "no formatting cycle"
+		if found {
+			var path []string
+			x := prev[m]
+			path = append(path, c.FuncKey(m))
+			for steps := 0; x != nil && x != m && steps < 20; steps++ {
+				path = append([]string{c.FuncKey(x) + " (" + adj[x][pathNext(prev, x, m)] + ")"}, path...)
+				x = prev[x]
+			}
+			why = "formatting cycle: " + c.FuncKey(m) + " -> " + strings.Join(path, " -> ")
+		}
+		r.Add(rule, "format-recursion:"+c.FuncKey(m), c.Pos(m.Pos()), c.FuncKey(m), "formatting a value of the module never comes back to the same method", !found, why)
+	}
+	r.Floor(rule, "String / Error / Format methods of the module", n, 8)
+}
+
+// pathNext: the successor of x on the recorded BFS tree path towards m.
+func pathNext(prev map[*ssa.Function]*ssa.Function, x, m *ssa.Function) *ssa.Function {
+	for y, p := range prev {
+		if p == x {
+			if y == m {
+				return y
+			}
+		}
+	}
+	for y, p := range prev {
+		if p == x {
+			return y
+		}
+	}
+	return nil
 }
